@@ -37,7 +37,7 @@ def tasks(tier, seed):
     t = [{"sub": "convert", "shard": i} for i in range(2)]
     t += [{"sub": "addsub", "shard": i, "auto": bool(i % 2)} for i in range(4)]
     t += [{"sub": "muldiv", "shard": i, "auto": bool(i % 2)} for i in range(4)]
-    t += [{"sub": "inplace", "shard": 0}, {"sub": "log", "shard": 0}, {"sub": "logarith", "shard": 0}, {"sub": "redef", "shard": 0}]
+    t += [{"sub": "inplace", "shard": 0}, {"sub": "log", "shard": 0}, {"sub": "logarith", "shard": 0}, {"sub": "redef", "shard": 0}, {"sub": "order", "shard": 0}]
     return t
 
 
@@ -472,6 +472,24 @@ def case_inplace(case, col=None):
     iop = {"+": operator.iadd, "-": operator.isub, "*": operator.imul, "/": operator.itruediv, "**": operator.ipow}[op]
     if op == "**":
         other = case["k"]
+    # conversion in place equals conversion; a refused one leaves the array alone (whatever the reason of the refusal)
+    for dst in ("kelvin", "degree_Fahrenheit", "meter", "second", "delta_degree_Celsius", "delta_degree_Fahrenheit", "delta_" + ua if not ua.startswith("delta_") and ua != "kelvin" and ua != "degree_Rankine" else "degree_Celsius"):
+        a1 = mk(xsv, ua)
+        r1 = attempt(a1.to, dst)
+        a2 = mk(xsv, ua)
+        r2 = attempt(a2.ito, dst)
+        if r1[0] != r2[0]:
+            raise Violation("ito_outcome_differs", f"{ua}->{dst}")
+        if r1[0] == "ok" and not np.allclose(r1[1].magnitude, a2.magnitude, rtol=1e-12, atol=1e-9):
+            raise Violation("ito_value_differs:array", f"{xsv} {ua} -> {dst}: to {r1[1].magnitude}, ito {a2.magnitude}")
+        if r1[0] == "err" and (not np.array_equal(a2.magnitude, np.array(xsv, dtype=float)) or dict(a2._units) != dict(mk(xsv, ua)._units)):
+            raise Violation("failed_ito_modified_array", f"{xsv} {ua}.ito({dst}) raised {type(r2[1]).__name__} but left {a2!r}")
+        arr = np.array(xsv, dtype=float)
+        r3 = attempt(ureg.convert, arr, ua, dst, inplace=True)
+        if r3[0] != r1[0]:
+            raise Violation("convert_inplace_outcome_differs", f"{ua}->{dst}")
+        if r3[0] == "err" and not np.array_equal(arr, np.array(xsv, dtype=float)):
+            raise Violation("failed_ito_modified_array:convert", f"convert({xsv}, {ua}, {dst}, inplace=True) raised {type(r3[1]).__name__} but left {arr!r}")
     plain = attempt(fop, mk(xsv, ua), other)
     target = mk(xsv, ua)
     keep = other.magnitude.copy() if hasattr(other, "_units") else None
@@ -487,18 +505,6 @@ def case_inplace(case, col=None):
         raise Violation(f"inplace_value_differs:{op}", f"{ua} {op} {ub} (autoconvert={auto}): plain {p.magnitude} {dict(p._units)}, in-place {i.magnitude} {dict(i._units)}")
     if keep is not None and not (dict(other._units) == {ub: 1} and np.array_equal(other.magnitude, keep)):
         raise Violation(f"inplace_modified_other_operand:{op}", f"{ua} {op} {ub} (autoconvert={auto})")
-    # conversion in place equals conversion
-    for dst in ("kelvin", "degree_Fahrenheit", "meter", "second"):
-        a1 = mk(xsv, ua)
-        r1 = attempt(a1.to, dst)
-        a2 = mk(xsv, ua)
-        r2 = attempt(a2.ito, dst)
-        if r1[0] != r2[0]:
-            raise Violation("ito_outcome_differs", f"{ua}->{dst}")
-        if r1[0] == "ok" and not np.allclose(r1[1].magnitude, a2.magnitude, rtol=1e-12, atol=1e-9):
-            raise Violation("ito_value_differs:array", f"{xsv} {ua} -> {dst}: to {r1[1].magnitude}, ito {a2.magnitude}")
-        if r1[0] == "err" and not np.array_equal(a2.magnitude, np.array(xsv, dtype=float)):
-            raise Violation("failed_ito_modified_array", f"{xsv} {ua}.ito({dst}) raised but left {a2.magnitude}")
 
 
 def run_inplace(task, tier, seed, col):
@@ -674,13 +680,63 @@ def run_redef(task, tier, seed, col):
     hyp_search(col, strat, lambda c: case_redef(c, col), max_examples=60 if tier == "quick" else 1200, seed=seed * 149 + 3, shrink_budget_s=60)
 
 
+# ------------------------------------------------------------------------------------- ordering across non-multiplicative units
+
+def case_order_log(case, col=None):
+    """< <= > >= between a logarithmic quantity and the same kind of quantity in another (logarithmic or linear) unit go through the defining map:
+    the answer is the ordering of the two linear values (model: factor * log_base(x / reference) inverted with the constants of the definitions)"""
+    import math
+    import operator
+
+    ureg = registry(False, "float")
+    tabl = log_table()
+    ua, ub, op = case["ua"], case["ub"], case["op"]
+
+    def linear(x, u):
+        if u not in tabl:
+            return float(x) * float(env.R().resolve_spelling(u).factor) if u != "dimensionless" else float(x)
+        t = tabl[u]
+        return t["scale"] * t["base"] ** (float(x) / t["factor"])
+
+    if col is not None:
+        col.case(("ol", ua, ub, op, str(case["x"]), str(case["y"])), ua != ub, sample=case, cls="log_order")
+    a, b = ureg.Quantity(float(case["x"]), ua if ua != "dimensionless" else ""), ureg.Quantity(float(case["y"]), ub if ub != "dimensionless" else "")
+    la, lb = linear(case["x"], ua), linear(case["y"], ub)
+    if abs(la - lb) <= 1e-9 * max(abs(la), abs(lb)):
+        raise Skip("values_too_close_for_float_ordering")
+    s_, got = attempt(getattr(operator, op), a, b)
+    if s_ == "err":
+        raise Violation(f"ordering_across_log_units_raised:{op}:{exc_class(got)}", f"{a!r} {op} {b!r}: {got!r}")
+    want = getattr(operator, op)(la, lb)
+    if bool(got) != want:
+        raise Violation(f"ordering_ignores_logarithmic_map:{op}", f"Q({case['x']},{ua}) {op} Q({case['y']},{ub}) is {got}; the linear values are {la!r} and {lb!r}")
+
+
+def run_order(task, tier, seed, col):
+    from .c03 import CMP_OPS, TEMP_UNITS, case_offsetcmp
+
+    zeros = sorted({o for _, o in TEMP_UNITS.values()})
+    names = sorted(TEMP_UNITS)
+    temp = st.builds(lambda ua, ub, ta, tb, op: {"Ta": ta, "Tb": tb, "ua": ua, "ub": ub, "op": op}, st.sampled_from(names), st.sampled_from(names), st.one_of(st.sampled_from(zeros), st.fractions(0, 1000, max_denominator=100)),
+                     st.one_of(st.sampled_from(zeros), st.fractions(0, 1000, max_denominator=100)), st.sampled_from(["<", "<=", ">", ">="] if "<" in CMP_OPS else sorted(CMP_OPS)))
+    hyp_search(col, temp, lambda c: case_offsetcmp(c, col), max_examples=600 if tier == "quick" else 10000, seed=seed * 151 + 1)
+    pure = [n for n, t in log_table().items() if not t["ref"]]  # logarithmic units of a plain ratio (dB, Np, octave, decade ...)
+    logs = st.builds(lambda ua, ub, x, y, op: {"ua": ua, "ub": ub, "x": x, "y": y, "op": op}, st.sampled_from(pure), st.sampled_from(pure + ["dimensionless", "percent"]), st.integers(-30, 30), st.integers(-30, 30).map(lambda v: v if v else 1),
+                     st.sampled_from(["lt", "le", "gt", "ge"]))
+    hyp_search(col, logs, lambda c: case_order_log(c, col), max_examples=400 if tier == "quick" else 6000, seed=seed * 151 + 2)
+
+
 def run_task(task, tier, seed, col):
-    {"convert": run_convert, "addsub": run_addsub, "muldiv": run_muldiv, "inplace": run_inplace, "log": run_log, "logarith": run_logarith, "redef": run_redef}[task["sub"]](task, tier, seed, col)
+    {"convert": run_convert, "addsub": run_addsub, "muldiv": run_muldiv, "inplace": run_inplace, "log": run_log, "logarith": run_logarith, "redef": run_redef, "order": run_order}[task["sub"]](task, tier, seed, col)
 
 
 def replay(sub, case):
     if sub == "redef":
         return case_redef(case)
+    if sub == "order":
+        from .c03 import case_offsetcmp
+
+        return case_offsetcmp(case) if "Ta" in case else case_order_log(case)
     if sub == "convert" and set(case) == {"unit"}:
         return case_scale(case)
     if sub == "muldiv":
